@@ -4,7 +4,7 @@ from hypothesis import strategies as st
 from .. import build, pbt, tool, probe as probe_mod, findings
 
 RULE = ("Hypothesis-generated method signatures over up to 4 method lifetimes (+ impl lifetimes) with arbitrary declared bounds (incl. cycles), 'static and anonymous "
-        "inputs, parameters &'x self / &'x Op<'y> / Option<&..> / slices / strs / borrowing structs by value or optional (incl. a nested borrowing struct and a struct whose nested borrowing struct field is a DiplomatOption, present or absent at run time), returns "
+        "inputs, parameters &'x self (on opaques with one or two lifetime slots) / self by value on a borrowing struct (the impl header restating Self's definition-site bounds or leaving them to rustc's inference: then the tool may reject, but must not accept with fewer edges) / &'x Op<'y> / Option<&..> / slices / strs / borrowing structs by value or optional (incl. a nested borrowing struct and a struct whose nested borrowing struct field is a DiplomatOption, present or absent at run time), returns "
         "mentioning 1-3 lifetimes (references, boxes, structs, slices, Option, Result arms); type definitions carry drawn declared and field-implied bounds. "
         "Level 1: Method::borrowing_param_visitor(..).borrow_map() via the public API must equal a reference outlives model (declared U implied bounds, reflexive-"
         "transitive closure): same key set, and per output lifetime exactly the input slots (self, opaque, slice, (struct param, definition slot)) whose lifetime must "
@@ -65,6 +65,7 @@ def plain_items(u):
     return "\n".join(p)
 
 
+IMPL_LTS = {"Op": [], "OpA": ["x"], "St1": ["p"], "St2": ["p", "q"], "OpAB": ["x", "y"]}
 TYPE_SLOTS = {"OpA": ["x"], "OpAB": ["x", "y"], "St1": ["p"], "St2": ["p", "q"], "Outer": ["m", "n"], "Wrap": ["w"], "Op": []}
 
 
@@ -146,8 +147,8 @@ def implied_and_required(u, t, out):
 
 @st.composite
 def signature(draw, u):
-    self_ty = draw(st.sampled_from(["Op", "OpA", "OpA", "St1"]))
-    impl_lts = {"Op": [], "OpA": ["x"], "St1": ["p"]}[self_ty]
+    self_ty = draw(st.sampled_from(["Op", "OpA", "OpA", "St1", "St2", "OpAB"]))
+    impl_lts = IMPL_LTS[self_ty]
     nl = draw(st.integers(1, 4))
     mlts = METHOD_LTS[:nl]
     named = mlts + impl_lts
@@ -159,12 +160,16 @@ def signature(draw, u):
 
     # self
     slf = None
-    if self_ty in ("Op", "OpA"):
+    if self_ty in ("Op", "OpA", "OpAB"):
         sk = draw(st.sampled_from(["named", "named", "anon", "none"]))
         if sk == "named":
             slf = draw(pick)
         elif sk == "anon":
             slf = "_anon"
+    elif draw(st.integers(0, 2)):
+        slf = "_byval"          # `self` by value on a borrowing struct
+    # is a definition-site bound of Self restated on the impl header? (rustc implies it either way; only methods taking self)
+    self_spelled = draw(st.booleans()) if slf else True
     params = []
     np_ = draw(st.integers(0, 4))
     for i in range(np_):
@@ -232,7 +237,7 @@ def signature(draw, u):
         sh = draw(pick)
         if lo != sh:
             declared.append((lo, sh))
-    return {"self_ty": self_ty, "impl_lts": impl_lts, "mlts": mlts, "self": slf, "params": params, "ret": ret, "declared": declared}
+    return {"self_ty": self_ty, "impl_lts": impl_lts, "mlts": mlts, "self": slf, "params": params, "ret": ret, "declared": declared, "self_spelled": self_spelled}
 
 
 def normalise(u, sig, spelled=True):
@@ -241,10 +246,19 @@ def normalise(u, sig, spelled=True):
     for _, t in sig["params"]:
         implied_and_required(u, t, req)
     implied_and_required(u, sig["ret"], req)
-    if sig["self"] and sig["self"] != "_anon" and sig["impl_lts"]:
+    if sig["self"] and sig["self"] not in ("_anon", "_byval") and sig["impl_lts"]:
         # `&'a self` with Self = OpA<'x> implies 'x: 'a. It cannot be restated on the method (it would need a where-clause on an
         # impl lifetime) and validation does not ask for it: the tool has to derive it on its own.
-        req.append((sig["impl_lts"][0], sig["self"], "self"))
+        for il in sig["impl_lts"]:
+            req.append((il, sig["self"], "self"))
+    # well-formedness of Self: `impl<'x, 'y> OpAB<'x, 'y>` with `OpAB<'x, 'y: 'x>` gives every item of the impl 'y: 'x,
+    # written on the header or not
+    impl_bounds = []
+    for (li, si) in def_bounds(u, sig["self_ty"]):
+        lo, sh = sig["impl_lts"][li], sig["impl_lts"][si]
+        req.append((lo, sh, "self"))
+        if sig.get("self_spelled", True):
+            impl_bounds.append((lo, sh))
     declared = list(sig["declared"])
     if spelled:
         # definition-site bounds must be restated; reference-implied bounds are restated as well because validation looks at the
@@ -258,7 +272,25 @@ def normalise(u, sig, spelled=True):
     sig = dict(sig)
     sig["declared"] = declared
     sig["implied"] = [(lo, sh) for lo, sh, kind in req if lo != sh]
+    sig["impl_bounds"] = impl_bounds
     return sig
+
+
+def unspelled_self(u, sig):
+    """a method taking self whose Self type has definition-site bounds that the impl header does not restate"""
+    return bool(sig["self"]) and bool(def_bounds(u, sig["self_ty"])) and not sig.get("self_spelled", True)
+
+
+def impl_header(sig):
+    """('<'p, 'q: 'p>', '<'p, 'q>') for `impl<..> Ty<..>`"""
+    il = sig["impl_lts"]
+    if not il:
+        return "", ""
+    decl = []
+    for l in il:
+        bs = [sh for lo, sh in sig.get("impl_bounds", []) if lo == l]
+        decl.append("'" + l + (": " + " + ".join("'" + b for b in dict.fromkeys(bs)) if bs else ""))
+    return "<%s>" % ", ".join(decl), "<%s>" % ", ".join("'" + l for l in il)
 
 
 def valid(u, sig):
@@ -284,6 +316,8 @@ def render_method(sig, name, body="todo!()"):
     ps = []
     if sig["self"] == "_anon":
         ps.append("&self")
+    elif sig["self"] == "_byval":
+        ps.append("self")
     elif sig["self"]:
         ps.append("&'%s self" % sig["self"])
     for n, t in sig["params"]:
@@ -315,7 +349,11 @@ def expected_map(sig):
     for r in keys:
         L = longer[r] - {"static"}
         edges = set()
-        if sig["self"] and sig["self"] != "_anon":
+        if sig["self"] == "_byval":
+            for slot, use in zip(_struct_slots(sig["self_ty"]), sig["impl_lts"]):
+                if use in L:
+                    edges.add(("self", "struct", slot))
+        elif sig["self"] and sig["self"] != "_anon":
             lts = [sig["self"]] + list(sig["impl_lts"])
             if any(l in L for l in lts):
                 edges.add(("self", "opaque", None))
@@ -351,7 +389,7 @@ def nontrivial(sig):
         indirect = [l for l in strict if (l, r) not in direct]
         all_slots = 0
         if sig["self"]:
-            all_slots += 1
+            all_slots += len(sig["impl_lts"]) if sig["self"] == "_byval" else 1
         for n, t in sig["params"]:
             all_slots += len(t[2]) if t[0] in ("struct", "optstruct") else 1
         if indirect and len(edges) < all_slots:
@@ -363,11 +401,10 @@ def nontrivial(sig):
 def bridge_source(u, sigs, spelled=True):
     by_ty = {}
     for i, s in enumerate(sigs):
-        by_ty.setdefault(s["self_ty"], []).append((i, s))
+        by_ty.setdefault((s["self_ty"],) + impl_header(s), []).append((i, s))
     src = "#[diplomat::bridge]\npub mod ffi {\n" + universe_items(u, spelled) + "\n"
-    for ty, lst in by_ty.items():
-        il = {"Op": "", "OpA": "<'x>", "St1": "<'p>"}[ty]
-        src += "    impl%s %s%s {\n" % (il, ty, il)
+    for (ty, ih, ia), lst in by_ty.items():
+        src += "    impl%s %s%s {\n" % (ih, ty, ia)
         for i, s in lst:
             src += render_method(s, "m%d" % i)
         src += "    }\n"
@@ -420,6 +457,22 @@ def worker(widx, seed, params):
         if acc.full():
             return
         u, sigs = case
+        # Self's definition-site bounds left off the impl header: valid Rust (rustc implies them). The tool may ask for them to
+        # be written (a lowering error); if it accepts the method its edges must be the ones rustc's rules give.
+        for s in [s for s in sigs if unspelled_self(u, s)]:
+            r1 = pr.ask(bridge_source(u, [s]), support=ALL_TRUE, borrow=True)
+            if r1["status"] != "ok":
+                acc.case([sig_text(s), json.dumps(u, sort_keys=True), "unspelled-self"], True, ["unspelled-self:" + ("asked-to-restate" if "explicitly include" in str(r1.get("errors")) else "rejected")])
+                continue
+            acc.case([sig_text(s), json.dumps(u, sort_keys=True), "unspelled-self"], True, ["unspelled-self:accepted"])
+            msg = compare(s, r1["borrow"].get("%s::m0" % s["self_ty"]))
+            if msg:
+                sig_ = "edges-unspelled-self|" + re.sub(r"'[a-z]+|\d+|p\d", "_", msg)[:50]
+                if sig_ in known:
+                    acc.extra["known:" + sig_] += 1
+                    continue
+                acc.violation("%s\n(the impl header does not restate Self's definition-site bound; rustc implies it)\n%s\n--- lib.rs ---\n%s" % (sig_text(s), msg, bridge_source(u, [s])), {"universe": u, "sig": s, "kind": "edges"}, signature=sig_)
+        sigs = [s for s in sigs if not unspelled_self(u, s)]
         if not sigs:
             return
         src = bridge_source(u, sigs)
@@ -471,16 +524,15 @@ def rustc_outlives(work, u, sigs):
     src = "#![allow(warnings)]\n" + plain_items(u) + "\nfn outl<'l: 'r, 'r>() {}\n"
     fn_lines = {}
     line = src.count("\n") + 1
-    il_of = {"Op": "", "OpA": "<'x>", "St1": "<'p>"}
     for i, s in enumerate(sigs):
         names = s["mlts"] + s["impl_lts"]
-        il = il_of[s["self_ty"]]
+        ih, il = impl_header(s)
         for l in names:
             for r in names:
                 if l == r:
                     continue
                 body = "outl::<'%s, '%s>(); todo!()" % (l, r)
-                txt = "impl%s %s%s {\n%s}\n" % (il, s["self_ty"], il, render_method(s, "m%d_%s_%s" % (i, l, r), body).replace("DiplomatStr16", "[u16]"))
+                txt = "impl%s %s%s {\n%s}\n" % (ih, s["self_ty"], il, render_method(s, "m%d_%s_%s" % (i, l, r), body).replace("DiplomatStr16", "[u16]"))
                 n = txt.count("\n")
                 fn_lines[(i, l, r)] = (line, line + n - 1)
                 src += txt
@@ -654,11 +706,15 @@ def js_runtime_spec(u, sigs):
                 if kind == "opaque":
                     want.add(n)
                 elif kind == "struct":
-                    t = dict((a, b) for a, b in s["params"])[n]
+                    t = ["struct", s["self_ty"], list(s["impl_lts"])] if n == "self" else dict((a, b) for a, b in s["params"])[n]
                     if t[1] == "Wrap" and n[-1:] in "02468":
                         continue        # absent optional field: nothing to keep alive, but the call must not throw
                     want.update(n + "." + p_ for p_ in struct_opaque_paths(u, t[1], slot))
-        slf = {"k": "opaque", "ty": s["self_ty"], "label": "self"} if s["self"] else None
+        slf = None
+        if s["self"] == "_byval":
+            slf = js_value(u, "self", ["struct", s["self_ty"], list(s["impl_lts"])])
+        elif s["self"]:
+            slf = {"k": "opaque", "ty": s["self_ty"], "label": "self"}
         methods.append({"cls": s["self_ty"], "name": "m%d" % i, "self": slf, "args": [js_value(u, n, t) for n, t in s["params"]]})
         expect.append((i, sorted(want)))
     return {"methods": methods}, expect
@@ -680,7 +736,7 @@ def backend_body(art, work, acc, case):
         u, sigs = case
         # restrict to returns that carry edges in managed languages: opaque / struct returns
         sigs = [s for s in sigs if s["ret"][0] in ("ref", "optref", "box", "struct", "result", "opt") and not any("static" in ty_lifetimes(t) for _, t in s["params"])
-                and "static" not in ty_lifetimes(s["ret"])]
+                and "static" not in ty_lifetimes(s["ret"]) and not unspelled_self(u, s)]
         if not sigs:
             return
         src = bridge_source(u, sigs)
